@@ -1,0 +1,256 @@
+//! Verification hooks for the test runner and eval-up-to, only
+//! compiled with `--cfg wilfred_garden_verif`.
+//!
+//! * `testrun <hexsrc> <hexfilter|-> <tick_limit|-> <stack_limit|-> [notrace]`:
+//!   what `garden test [-n filter] file` does (`run_tests_in_files`), in
+//!   a fresh `Env`, with output captured and the per-tick trace hook
+//!   on. Reports one verdict per selected test, the text
+//!   `describe_tests` prints and the exit status `garden test` would
+//!   use.
+//! * `evalupto <hexsrc> <offset> [notrace]`: what
+//!   `garden reftest-eval-up-to` does for the position `offset`: run the
+//!   whole file, then `eval_up_to`. Reports the outcome of the first
+//!   run, the expression id chosen, the items after
+//!   `set_observed_expr_value_used`, the result and the trace of the
+//!   second run.
+
+use std::cell::Cell;
+use std::fmt::Write as _;
+use std::rc::Rc;
+use std::sync::atomic::AtomicBool;
+use std::sync::{Arc, Mutex};
+use std::time::Instant;
+
+use crate::env::Env;
+use crate::eval::{
+    eval_tests, eval_toplevel_items, eval_up_to, load_toplevel_items, EvalUpToErr, Session,
+    StdoutStderrMode,
+};
+use crate::parser::ast::{IdGenerator, ToplevelItem};
+use crate::parser::parse_toplevel_items;
+use crate::parser::vfs::Vfs;
+
+thread_local! {
+    static OBSERVED: Cell<Option<usize>> = const { Cell::new(None) };
+    static MARKED_ITEMS: std::cell::RefCell<Option<String>> = const { std::cell::RefCell::new(None) };
+}
+
+/// Called from `eval_up_to` with the expression it decided to stop at
+/// and the items after marking that expression as used.
+pub(crate) fn note_observed(expr_id: usize, items: &[ToplevelItem]) {
+    OBSERVED.with(|o| o.set(Some(expr_id)));
+    MARKED_ITEMS.with(|m| *m.borrow_mut() = Some(crate::verif_machine::verif_items_sexp(items)));
+}
+
+fn hex(s: &str) -> String {
+    let mut out = String::with_capacity(s.len() * 2);
+    for b in s.as_bytes() {
+        let _ = write!(out, "{b:02x}");
+    }
+    out
+}
+
+fn parse_opt_usize(s: &str) -> Option<usize> {
+    if s == "-" {
+        None
+    } else {
+        s.parse().ok()
+    }
+}
+
+struct Captured {
+    session: Session,
+    stdout_buf: Arc<Mutex<String>>,
+}
+
+fn captured_session() -> Captured {
+    let stdout_buf = Arc::new(Mutex::new(String::new()));
+    let stderr_buf = Arc::new(Mutex::new(String::new()));
+    let session = Session {
+        interrupted: Arc::new(AtomicBool::new(false)),
+        stdout_stderr_mode: StdoutStderrMode::WriteToNReplBuffers {
+            stdout_buf: Arc::clone(&stdout_buf),
+            stderr_buf,
+        },
+        start_time: Instant::now(),
+        trace_exprs: false,
+        pretty_print_json: false,
+    };
+    Captured {
+        session,
+        stdout_buf,
+    }
+}
+
+pub(crate) fn op_testrun(rest: &str, src: &str) -> Result<String, String> {
+    let parts: Vec<&str> = rest.split(' ').collect();
+    let filter = match parts.get(1) {
+        Some(&"-") | None => String::new(),
+        Some(h) => crate::verif_hooks::verif_unhex(h)?,
+    };
+    let tick_limit = parts.get(2).and_then(|s| parse_opt_usize(s));
+    let stack_limit = parts.get(3).and_then(|s| parse_opt_usize(s));
+    let want_trace = parts.get(4).copied() != Some("notrace");
+
+    // As in `run_tests_in_files`, for one file.
+    let path = std::path::PathBuf::from("/verif_input.gdn");
+    let cap = captured_session();
+    let id_gen = IdGenerator::default();
+    let mut env = Env::new(id_gen, Vfs::default());
+    let vfs_path = env.vfs.insert(Rc::new(path.clone()), src.to_owned());
+    let (items, errors) = parse_toplevel_items(&vfs_path, src, &mut env.id_gen);
+    if !errors.is_empty() {
+        return Ok("(parse-error)".to_owned());
+    }
+    let ns = env.get_or_create_namespace(&path);
+    load_toplevel_items(&items, &mut env, ns);
+
+    let mut test_items: Vec<ToplevelItem> = vec![];
+    for item in &items {
+        if let ToplevelItem::Test(ti) = item {
+            if ti.name_sym.name.text.contains(&filter) {
+                test_items.push(item.clone());
+            }
+        }
+    }
+
+    env.tick_limit = tick_limit;
+    env.stack_limit = stack_limit;
+
+    crate::verif_machine::verif_trace_begin(want_trace);
+    let summary = eval_tests(&test_items, &mut env, &cap.session);
+    let lines = crate::verif_machine::verif_trace_take();
+
+    let tests_failed = summary
+        .tests
+        .iter()
+        .filter(|(_, err, _)| err.is_some())
+        .count();
+    let described = crate::test_runner::describe_tests(&env, &summary);
+
+    let mut tests = String::new();
+    for (sym, err, _) in &summary.tests {
+        let _ = write!(
+            tests,
+            " (t {} {})",
+            sym.name.text,
+            match err {
+                None => "(pass)".to_owned(),
+                Some(e) => crate::verif_machine::verif_err_short(e),
+            }
+        );
+    }
+
+    let frame = env.current_frame();
+    let end_state = format!(
+        "(end {} {} {} {} {})",
+        env.ticks,
+        env.stack.0.len(),
+        frame.exprs_to_eval.len(),
+        frame.evalled_values.len(),
+        frame.bindings.block_bindings.len()
+    );
+    let out = cap.stdout_buf.lock().map(|s| s.clone()).unwrap_or_default();
+    Ok(format!(
+        "(testrun (tests{}) (exit {}) {} (out {}) (summary {}) (items {}) (trace {}))",
+        tests,
+        if tests_failed > 0 { 1 } else { 0 },
+        end_state,
+        hex(&out),
+        hex(&described),
+        hex(&crate::verif_machine::verif_items_sexp(&items)),
+        hex(&lines.join("\n"))
+    ))
+}
+
+pub(crate) fn op_evalupto(rest: &str, src: &str) -> Result<String, String> {
+    let parts: Vec<&str> = rest.split(' ').collect();
+    let offset: usize = parts
+        .get(1)
+        .and_then(|s| s.parse().ok())
+        .ok_or_else(|| "evalupto needs an offset".to_owned())?;
+    let want_trace = parts.get(2).copied() != Some("notrace");
+
+    // As in `reftest_eval_up_to`.
+    let path = std::path::PathBuf::from("/verif_input.gdn");
+    let mut id_gen = IdGenerator::default();
+    let mut vfs = Vfs::default();
+    let vfs_path = vfs.insert(Rc::new(path.clone()), src.to_owned());
+    let (items, errors) = parse_toplevel_items(&vfs_path, src, &mut id_gen);
+    if !errors.is_empty() {
+        return Ok("(parse-error)".to_owned());
+    }
+
+    let mut env = Env::new(id_gen, vfs);
+    let ns = env.get_or_create_namespace(&path);
+    env.current_frame_mut().namespace = ns;
+
+    let cap = captured_session();
+
+    crate::verif_machine::verif_trace_begin(false);
+    if let Err(e) = eval_toplevel_items(&vfs_path, &items, &mut env, &cap.session) {
+        let out = cap.stdout_buf.lock().map(|s| s.clone()).unwrap_or_default();
+        return Ok(format!(
+            "(evalupto (first {}) (out {}))",
+            crate::verif_machine::verif_err_short(&e),
+            hex(&out)
+        ));
+    }
+    let first_out = cap.stdout_buf.lock().map(|s| s.clone()).unwrap_or_default();
+    let first_ticks = env.ticks;
+
+    OBSERVED.with(|o| o.set(None));
+    MARKED_ITEMS.with(|m| *m.borrow_mut() = None);
+    crate::verif_machine::verif_trace_begin(want_trace);
+    let res = eval_up_to(&vfs_path, &mut env, &cap.session, &items, offset);
+    let lines = crate::verif_machine::verif_trace_take();
+
+    let result = match &res {
+        Ok((v, pos)) => format!(
+            "(value {} {} {}:{})",
+            crate::verif_machine::verif_value_short(v),
+            hex(&v.display(&env)),
+            pos.start_offset,
+            pos.end_offset
+        ),
+        Err(EvalUpToErr::EvalError(e)) => {
+            format!("(error {})", crate::verif_machine::verif_err_short(e))
+        }
+        Err(EvalUpToErr::NoExpressionFound) => "(noexpr)".to_owned(),
+        Err(EvalUpToErr::NoValueAvailable) => "(novalue)".to_owned(),
+    };
+    let observed = match OBSERVED.with(|o| o.get()) {
+        Some(id) => id.to_string(),
+        None => "none".to_owned(),
+    };
+    let marked = MARKED_ITEMS
+        .with(|m| m.borrow_mut().take())
+        .unwrap_or_default();
+
+    let all_out = cap.stdout_buf.lock().map(|s| s.clone()).unwrap_or_default();
+    let second_out = all_out
+        .strip_prefix(first_out.as_str())
+        .unwrap_or(&all_out)
+        .to_owned();
+    let frame = env.current_frame();
+    let end_state = format!(
+        "(end {} {} {} {} {})",
+        env.ticks - first_ticks,
+        env.stack.0.len(),
+        frame.exprs_to_eval.len(),
+        frame.evalled_values.len(),
+        frame.bindings.block_bindings.len()
+    );
+    Ok(format!(
+        "(evalupto (first ok) (firstticks {}) (id {}) {} {} (out1 {}) (out2 {}) (items {}) (marked {}) (trace {}))",
+        first_ticks,
+        observed,
+        result,
+        end_state,
+        hex(&first_out),
+        hex(&second_out),
+        hex(&crate::verif_machine::verif_items_sexp(&items)),
+        hex(&marked),
+        hex(&lines.join("\n"))
+    ))
+}
